@@ -340,6 +340,24 @@ def check_falsy_and_state(prog: Program, res: Result, fi) -> None:
                         "dropped and E / Z import to equal graphs")
             else:
                 res.ok("R-FALSY-ID", inst, fi.loc(node))
+        elif isinstance(node, ast.BoolOp):
+            # the unrolled form of all(... for a in (0, 1)): a and/or chain
+            # over descriptor atoms
+            vals = node.values
+            if not any(re.search(r"\.atoms\b|\batoms\[", norm(v))
+                       for v in vals):
+                continue
+            n += 1
+            inst = f"smg_from_rdmol: {norm(node, 70)}"
+            bare = [v for v in vals
+                    if isinstance(v, (ast.Name, ast.Subscript, ast.Attribute))
+                    and re.search(r"\.atoms\b|\batoms\[", norm(v))]
+            if bare:
+                res.bad("R-FALSY-ID", inst, fi.loc(node),
+                        f"{inst}: identifiers are tested by truthiness; "
+                        "atom 0 counts as absent")
+            else:
+                res.ok("R-FALSY-ID", inst, fi.loc(node))
     res.need("R-FALSY-ID", n, 3, "any()/all() tests in the importer")
     ci = prog.cls("RDMol2StereoMolGraph")
     for name, m in ci.methods.items():
